@@ -71,8 +71,9 @@ def install_invariant():
         return
     _installed = True
     import penman.graph as PG
-    NewGraph = icontract.invariant(graph_repr_ok, error=InvariantBroken)(PG.Graph)
-    assert NewGraph is PG.Graph
+    NewGraph = icontract.invariant(graph_repr_ok, error=InvariantBroken, enabled=True)(PG.Graph)   # (also under -O)
+    if NewGraph is not PG.Graph:
+        raise RuntimeError('icontract returned another class')
 
 
 def cases(ctx):
@@ -371,7 +372,14 @@ def oracle(ctx, kind, p):
         shared = [(rng.choice(SRC), rng.choice(ROLES), rng.choice(TGT)) for _ in range(3)]
         for _ in range(3):
             tr, top, ep, meta = rand_graph(rng, tops=[None, None, 'a', 'b'])
-            tr = tr + rng.sample(shared, rng.randrange(0, 4))
+            extra_sh = rng.sample(shared, rng.randrange(0, 4))
+            tr = tr + extra_sh
+            for t in extra_sh:
+                # a triple that several graphs of the pool have, each with markers of its own
+                t2 = (t[0], colon(t[1]), t[2])
+                if rng.random() < .6:
+                    from penman.surface import Alignment
+                    ep[t2] = [rng.choice([POP, Push(t2[0]), Alignment((rng.randrange(9),))])]
             rng.shuffle(tr)
             pool.append(mk(tr, top, ep, meta))
         if p['i'] % 7 == 0:
@@ -420,7 +428,14 @@ def oracle(ctx, kind, p):
                         pass
                 continue
             history.append([op, i, j])
+            third = 3 - i - j
+            by_before = snap(pool[third][0])
             u, mu = check_binop(ctx, op, g, m, h, mh, det)
+            if snap(pool[third][0]) != by_before:
+                # a graph that is not even an operand of this call (it was one earlier in the history)
+                ctx.fail(f'{op}:bystander-graph-changed', mech='history',
+                         detail=dict(det, bystander=third, before=repr(by_before)[:300],
+                                     after=repr(snap(pool[third][0]))[:300]))
             if u is None:
                 break
             # the real epidata is the state we continue from; resync model markers
